@@ -24,7 +24,7 @@ Theorem C09_accept_sound : forall HH ER bt cs st h st' cs' c',
     (if h_num h mod c_epoch cs =? 0 then (len (h_extra h) - 97) mod 20 = 0 else len (h_extra h) = 97) /\
     to_hash (h_mix h) = zeros 32 /\ to_hash (h_uncle h) = uncleHash /\
     len (h_bloom h) <= 256 /\ len (h_nonce h) <= 8 /\
-    (* gas: limit <= 2^63-1, used <= limit, the bound test of the code (see C09_gas_bound_arith) *)
+    (* gas: limit <= 2^63-1, used <= limit, |parent - limit| < parent/256 and limit >= 5000 (C09_gas_bound_arith) *)
     h_gaslimit h <= 9223372036854775807 /\ h_gasused h <= h_gaslimit h /\
     gas_bound_bad (h_gaslimit (c_header cs)) (h_gaslimit h) = false /\
     (* sealed by the coinbase, a member of the current validator set *)
@@ -41,12 +41,11 @@ Proof.
 Qed.
 Print Assumptions C09_accept_sound.
 
-(** The gas bound in ordinary arithmetic: |parent - limit| < parent/256 and limit >= 5000, whenever the
-    parent's limit fits an int64 — always the case when the parent was itself accepted (limit <= 2^63-1). *)
+(** The gas bound in ordinary arithmetic: |parent - limit| < parent/256 and limit >= 5000, for every parent
+    limit (before the repair ff33d14 only for parent limits that fit an int64, Refuted/C09_refuted.v). *)
 Theorem C09_gas_bound_arith : forall parent_limit limit,
-  parent_limit < two63 -> limit <= 9223372036854775807 ->
-  (gas_bound_bad parent_limit limit = false <->
-   (if limit <=? parent_limit then parent_limit - limit else limit - parent_limit) < parent_limit / 256 /\ 5000 <= limit).
+  gas_bound_bad parent_limit limit = false <->
+  (if limit <=? parent_limit then parent_limit - limit else limit - parent_limit) < parent_limit / 256 /\ 5000 <= limit.
 Proof. exact gas_bound_math. Qed.
 Print Assumptions C09_gas_bound_arith.
 
@@ -129,6 +128,18 @@ Theorem C09_consensus_states_history : forall HH ER k ch,
   (forall key c, In (key, c) (cons (snd k)) -> exists b, In b ch /\ gkey b = key /\ gb_cons b = c).
 Proof. exact consensus_states_history. Qed.
 Print Assumptions C09_consensus_states_history.
+
+(** A rejected (or panicking) raw CheckHeaderAndUpdateState call leaves the store untouched, except that a
+    header failing ONLY the difficulty test (code 13) leaves the recent-signer entry that SetSigner wrote before
+    that test — which is why the call has to run inside a transaction (BaseApp discards it: [deliver]). *)
+Theorem C09_rejected_writes : forall HH ER bt cs st h st',
+  (exists k, check_header_and_update HH ER bt cs st h = (st', RErr k)) \/
+  check_header_and_update HH ER bt cs st h = (st', RPanic) ->
+  st' = st \/
+  exists signer, sealer ER (c_chain cs) h = Some signer /\ st' = set_signer st (hheight h) signer /\
+                 check_header_and_update HH ER bt cs st h = (st', RErr 13).
+Proof. exact rejected_writes. Qed.
+Print Assumptions C09_rejected_writes.
 
 (** [reach] covers every history: running any list of submissions (rejected and panicking ones leave the state
     unchanged — BaseApp discards a failed transaction) from a reachable state ends in a reachable state whose
